@@ -233,10 +233,13 @@ impl Bitstr {
                 pos += n;
             }
         } else {
-            for byte in data_bytes {
-                let (val, n) = cut_bits(*byte, pos, end);
-                acc |= (val as u128) << (pos - self.start()) as u32;
-                pos += n;
+            // little-endian: bytes are counted from the first bit of the value, not of the buffer
+            let mut shift = 0u32;
+            for (val, n) in self.iter8() {
+                if shift < u128::BITS {
+                    acc |= (val as u128) << shift;
+                }
+                shift += n;
             }
         }
         acc
